@@ -270,6 +270,13 @@ class ADAPTSolver:
                 self.converged = True
                 break
 
+        # The reference state is already converged (no operator was added, no VQE was run):
+        # the energy is the one of the reference state.
+        if not self.energies:
+            self.optimal_var_params = list(params) if params is not None else []
+            self.optimal_energy = self.vqe_solver.energy_estimation(self.optimal_var_params)
+            self.energies.append(self.optimal_energy)
+
         # Reconstructing the optimal circuit at the end of the ADAPT iterations
         # or when the algorithm has converged.
         self.ansatz.build_circuit(self.optimal_var_params)
